@@ -101,6 +101,18 @@ CHECKS = {
 
 NOT_YET = "check not built yet in this round; see DESIGN.md section 3 for the planned spec and binding"
 
+DESIGN_REF = {"C01": "3.3 C01, 9.4", "C02": "3.3 C02, 9.4", "C03": "3.3 C03, 9.4", "C04": "3.3 C04, 9.4",
+              "C05": "3.3 C05, 9.4", "C06": "3.3 C06, 9.4", "C07": "3.3 C07, 9.4", "C08": "3.2 C08, 9.4",
+              "C14": "3.2 C14, 9.4", "C15": "3.2 C15, 9.4", "C16": "3.2 C16, 9.4", "C17": "3.3 C17, 9.4",
+              "C19": "3.3 C19, 9.4", "C20": "3.3 C20, 9.4"}
+# properties built by the builder sessions: their MANIFEST fields live in notes/<ID>.manifest.json;
+# a property is claimed once it is listed here (after its check was reviewed and found silent)
+ACCEPTED = ["C01", "C02", "C15", "C03", "C04", "C05", "C06", "C07", "C08", "C14", "C16", "C17", "C19", "C20"]
+for _pid in ACCEPTED:
+    _d = json.load(open(os.path.join(VERIF, "notes", _pid + ".manifest.json")))
+    CHECKS[_pid] = dict(category=_d["category"], text=_d["text"], note=_d.get("note", ""),
+                        technique=_d.get("technique", ""), design_ref=DESIGN_REF[_pid])
+
 
 def main():
     checks = []
